@@ -65,13 +65,23 @@ func ParseFloat(b []byte) (float64, int) {
 	}
 	expExp := int64(0)
 	if i < len(b) && (b[i] == 'e' || b[i] == 'E') {
-		startExp := i
-		i++
-		if e, expLen := ParseInt(b[i:]); 0 < expLen {
-			expExp = e
-			i += expLen
-		} else {
-			i = startExp
+		j := i + 1
+		negExp := false
+		if j < len(b) && (b[j] == '+' || b[j] == '-') {
+			negExp = b[j] == '-'
+			j++
+		}
+		startExp := j
+		for ; j < len(b) && '0' <= b[j] && b[j] <= '9'; j++ {
+			if expExp < 1e15 { // saturate, anything this large is zero or infinite
+				expExp = expExp*10 + int64(b[j]-'0')
+			}
+		}
+		if startExp < j {
+			i = j
+			if negExp {
+				expExp = -expExp
+			}
 		}
 	}
 	exp := expExp - mantExp
